@@ -9,6 +9,7 @@ import (
 	"reflect"
 	"sort"
 	"strings"
+	"sync"
 )
 
 type replayItem struct {
@@ -50,6 +51,21 @@ func RunReplay(fns map[string]func()) {
 		}
 		Reset(it.Model)
 		frozenSnaps = nil
+		if raceMode {
+			// the same harness twice at once: a store into anything the two runs share is a data race
+			var wg sync.WaitGroup
+			for g := 0; g < 2; g++ {
+				wg.Add(1)
+				go func() {
+					defer wg.Done()
+					runOne(fn)
+				}()
+			}
+			wg.Wait()
+			os.Stderr.Sync()
+			fmt.Printf("VRT-END ok race-mode\n")
+			continue
+		}
 		res, msg := runOne(fn)
 		if res == "ok" {
 			for _, s := range frozenSnaps {
@@ -81,6 +97,9 @@ func runOne(fn func()) (res, msg string) {
 }
 
 func nativeFreeze(p interface{}, why string) {
+	if raceMode {
+		return // the race detector is the observer
+	}
 	frozenSnaps = append(frozenSnaps, frozenSnap{p, why, Dump(p)})
 }
 
